@@ -641,13 +641,13 @@ package transaction
 //@   opaque-callee GetMemDB GetMemBuffer newMemBufferMutations Len IsUnnecessaryKeyValue Handle checkAssertionByPessimisticLockResults UpdateFlags txnLockTTL setDetail GetRequestSource IsInternalRequest ToPB StartTS GetKey
 //@   loop 1 invariant l1: it != nil
 // (C06) every entry that carries the "locked" flag becomes a mutation - so that the commit converts or removes its lock -
-// whatever the filter says about its value (ghost: memBufferMutations.pushed counts the pushes). Not covered: a locked key
-// whose buffered value is an empty (delete) entry that the filter calls unnecessary is skipped by the code as it stands.
-//@   loop 1 step locked: art.aFlags(it, prev(it.apos)).HasLocked() && !(art.aHasValue(it, prev(it.apos)) && value == "" && isUnnecessaryKV) && c.mutations == prev(c.mutations) ==> c.mutations.pushed == prev(c.mutations.pushed) + 1
+// whatever the filter says about its value, a buffered deletion included (finding F18, fixed; ghost:
+// memBufferMutations.pushed counts the pushes).
+//@   loop 1 step locked: art.aFlags(it, prev(it.apos)).HasLocked() && c.mutations == prev(c.mutations) ==> c.mutations.pushed == prev(c.mutations.pushed) + 1
 //@   loop 2 invariant l2: true
 //@   at call(Push) assert op: arg_op == ite(!art.aHasValue(it, it.apos), ite(flags.HasLockedInShareMode(), kvrpcpb.Op_SharedLock, kvrpcpb.Op_Lock),
 //@       ite(value != "", ite(isUnnecessaryKV, ite(flags.HasLockedInShareMode(), kvrpcpb.Op_SharedLock, kvrpcpb.Op_Lock), ite(flags.HasPresumeKeyNotExists(), kvrpcpb.Op_Insert, kvrpcpb.Op_Put)),
-//@           ite(!c.txn.isPessimistic && flags.HasPresumeKeyNotExists(), kvrpcpb.Op_CheckNotExists, ite(flags.HasNewlyInserted(), ite(flags.HasLockedInShareMode(), kvrpcpb.Op_SharedLock, kvrpcpb.Op_Lock), kvrpcpb.Op_Del))))
+//@           ite(isUnnecessaryKV, ite(flags.HasLockedInShareMode(), kvrpcpb.Op_SharedLock, kvrpcpb.Op_Lock), ite(!c.txn.isPessimistic && flags.HasPresumeKeyNotExists(), kvrpcpb.Op_CheckNotExists, ite(flags.HasNewlyInserted(), ite(flags.HasLockedInShareMode(), kvrpcpb.Op_SharedLock, kvrpcpb.Op_Lock), kvrpcpb.Op_Del)))))
 //@   at call(Push) assert mode: arg_isPessimisticLock == (flags.HasLocked() && c.isPessimistic)
 
 // A successful prewrite answer decides how the commit may proceed (C03/C04: a commit protocol is used only if the store
